@@ -37,6 +37,9 @@ struct LogRecord {
     version: u64,
     /// state after all uncheckpointed records strictly before this one
     prefix_state: State,
+    /// the record is still in the log although an explicit checkpoint already covers it: cutting
+    /// the log inside it must leave the checkpointed state (only truncations are tried here)
+    covered: bool,
 }
 
 struct LogImage {
@@ -62,7 +65,13 @@ fn apply(st: &mut State, op: &DOp) {
     }
 }
 
-fn analyse(root: &Path, n_ops: u64, origin: String, ops: &[Op<Vec<u8>>]) -> Result<LogImage, String> {
+fn analyse(
+    root: &Path,
+    n_ops: u64,
+    origin: String,
+    ops: &[Op<Vec<u8>>],
+    explicit_cp: Option<(u64, State)>,
+) -> Result<LogImage, String> {
     let mut st: State = BTreeMap::new();
     let mut snap_v = 0u64;
     if let Ok(b) = std::fs::read(root.join("index")) {
@@ -72,6 +81,12 @@ fn analyse(root: &Path, n_ops: u64, origin: String, ops: &[Op<Vec<u8>>]) -> Resu
             st.insert(k, (h, sz));
         }
     }
+    // with an explicit checkpoint in the history, what is checkpointed is known from the history
+    // itself (version = logged operations before it, state = the model's), not from the file
+    if let Some((v, state)) = &explicit_cp {
+        snap_v = *v;
+        st = state.clone();
+    }
     let segments = disk::list_segments(root);
     let mut records = Vec::new();
     for (id, path) in &segments {
@@ -79,6 +94,17 @@ fn analyse(root: &Path, n_ops: u64, origin: String, ops: &[Op<Vec<u8>>]) -> Resu
         let seg = disk::parse_segment(*id, &bytes)?;
         for r in seg.records {
             if r.version <= snap_v {
+                if explicit_cp.is_some() {
+                    records.push(LogRecord {
+                        seg_id: *id,
+                        seg_path: path.clone(),
+                        offset: r.offset,
+                        total: HEADER + r.payload.len(),
+                        version: r.version,
+                        prefix_state: st.clone(),
+                        covered: true,
+                    });
+                }
                 continue;
             }
             let op = disk::parse_op(&r.payload)?;
@@ -89,6 +115,7 @@ fn analyse(root: &Path, n_ops: u64, origin: String, ops: &[Op<Vec<u8>>]) -> Resu
                 total: HEADER + r.payload.len(),
                 version: r.version,
                 prefix_state: st.clone(),
+                covered: false,
             });
             apply(&mut st, &op);
         }
@@ -249,6 +276,9 @@ fn damages(rec: &LogRecord, rng: &mut Rng, thorough: bool) -> Vec<Damage> {
             v.push(Damage::Truncate { at: o + rel });
         }
     }
+    if rec.covered {
+        return v;
+    }
     // alterations: checksum bytes 8..40 and payload bytes 44..t
     let masks: &[u8] = if thorough { &[0x01, 0x80, 0xff] } else { &[0x01, 0xff] };
     for rel in (8..40).chain(HEADER..t) {
@@ -296,10 +326,11 @@ fn build(seed: u64, case: u64, tools: &Tools, rep: &mut Report) -> Option<(LogIm
     let base = fsx::fresh_path("wal");
     std::fs::create_dir_all(&base).ok()?;
     let root = base.join("db");
-    let class = case % 5;
+    let class = case % 6;
     match class {
-        0 | 1 | 2 | 4 => {
+        0 | 1 | 2 | 4 | 5 => {
             // clean drop; 0: no snapshot at all, 1: tail after a rollover checkpoint, 2: long records,
+            // 5: explicit checkpoint in mid-segment (covered records remain in the log),
             // 4: a range removal over hundreds of keys (one operation, however it is logged)
             let n_ops = match class {
                 0 => 1000,
@@ -318,6 +349,25 @@ fn build(seed: u64, case: u64, tools: &Tools, rep: &mut Report) -> Option<(LogIm
             } else {
                 history(&mut rng, class == 2, len)
             };
+            // 5: an explicit checkpoint in the middle of the (single) segment: the records before
+            // it stay in the log although the snapshot covers them
+            let mut ops = ops;
+            let mut explicit_cp: Option<(u64, State)> = None;
+            if class == 5 {
+                let at = rng.range(2, ops.len() as u64 - 1) as usize;
+                let mut mr: ModelRunner<Vec<u8>> = ModelRunner::new();
+                let mut v = 0u64;
+                for op in &ops[..at] {
+                    if mr.logs_record(op) {
+                        v += 1;
+                    }
+                    mr.step(op);
+                }
+                let state: State =
+                    mr.model.map.iter().map(|(k, b)| (k.clone(), (cassadilia_verif::model::b3(b), b.len() as u64))).collect();
+                explicit_cp = Some((v, state));
+                ops.insert(at, Op::Checkpoint);
+            }
             let mut sess = Session::<Vec<u8>>::open(&root, config(n_ops, true, false, false, false)).ok()?;
             for op in &ops {
                 if sess.exec(op).is_err() {
@@ -327,7 +377,7 @@ fn build(seed: u64, case: u64, tools: &Tools, rep: &mut Report) -> Option<(LogIm
             }
             sess.close();
             let origin = format!("class {class} clean drop n_ops={n_ops}\n{}", enc_script(&ops));
-            match analyse(&root, n_ops, origin, &ops) {
+            match analyse(&root, n_ops, origin, &ops, explicit_cp) {
                 Ok(img) => Some((img, base)),
                 Err(e) => {
                     rep.inconclusive.push(format!("could not analyse an undamaged log: {e}"));
@@ -390,7 +440,7 @@ fn build(seed: u64, case: u64, tools: &Tools, rep: &mut Report) -> Option<(LogIm
                 return None;
             }
             let origin = format!("class 3 killed before checkpoint call {k} n_ops={n_ops}\n{}", enc_script(&ops));
-            match analyse(&root, n_ops, origin, &ops) {
+            match analyse(&root, n_ops, origin, &ops, None) {
                 Ok(img) => {
                     let segs: std::collections::BTreeSet<u64> = img.records.iter().map(|r| r.seg_id).collect();
                     if segs.len() >= 2 {
@@ -407,7 +457,7 @@ fn build(seed: u64, case: u64, tools: &Tools, rep: &mut Report) -> Option<(LogIm
     }
 }
 
-fn run_case(seed: u64, case: u64, thorough: bool, tools: &Tools, rep: &mut Report) {
+fn run_case(seed: u64, case: u64, thorough: bool, tools: &Tools, rep: &mut Report, deadline: std::time::Instant) {
     let Some((img, base)) = build(seed, case, tools, rep) else { return };
     if img.records.is_empty() {
         rep.count("logs_without_uncheckpointed_records", 1);
@@ -437,6 +487,10 @@ fn run_case(seed: u64, case: u64, thorough: bool, tools: &Tools, rep: &mut Repor
     rep.count("logs", 1);
     rep.count("uncheckpointed_records", img.records.len() as u64);
     for i in idx {
+        if std::time::Instant::now() > deadline {
+            rep.count("records_skipped_deadline", 1);
+            continue;
+        }
         let rec = &img.records[i];
         rep.count("records_damaged", 1);
         rep.max("max_record_bytes", rec.total as u64);
@@ -477,6 +531,8 @@ fn main() {
         None => (0..cases).collect(),
     };
     let started = std::time::Instant::now();
+    // wall-clock budget: after it no new log (and no new record of a log) is started
+    let deadline = started + std::time::Duration::from_secs(args.u64("deadline", 3600));
     let next = AtomicU64::new(0);
     let total = Mutex::new(Report::new("walmon"));
     std::thread::scope(|s| {
@@ -488,7 +544,11 @@ fn main() {
                     if i >= ids.len() {
                         break;
                     }
-                    run_case(seed, ids[i], thorough, &tools, &mut rep);
+                    if std::time::Instant::now() > deadline {
+                        rep.count("cases_skipped_deadline", 1);
+                        continue;
+                    }
+                    run_case(seed, ids[i], thorough, &tools, &mut rep, deadline);
                 }
                 total.lock().unwrap().merge(rep);
             });
